@@ -49,6 +49,11 @@ class Prop(common.PropertyCheck):
         yield dict(base, order='DT', extra=[['RUNDIR', 'runs/b7/']])
         yield dict(base, order='TDS', stext=[['SK0', 'sv0'], ['SDIR', 'out/x/']], extra=[['K', 'v']])
         yield dict(base, version='FCS3.1', delim='|', order='DT', extra=[['NOTE', 'a|b|']])
+        # big-endian FCS2.0 files: $BYTEORD is the first keyword of TEXT (a TEXT extent that begins one pair later still splits into pairs)
+        be = {'version': 'FCS2.0', 'delim': '/', 'datatype': 'I', 'byteord': '4,3,2,1', 'widths': [16, 16], 'ranges': [65536, 65536],
+              'events': [[258, 772], [4660, 22136], [1, 256]], 'placement': 'header', 'end_conv': 'last', 'pad_text': 0, 'pad_data': 0, 'pad_after': 0, 'order': 'TD'}
+        yield be
+        yield dict(be, datatype='F', widths=[32, 32], ranges=[1024, 1024], events=[[0x3fc00000, 0x40490fdb], [0x42f6e979, 0x3dcccccd]], delim='|', byteord='4,3,2,1')
 
     def gen_cases(self):
         rng = self.rng
@@ -265,7 +270,9 @@ class Prop(common.PropertyCheck):
         if case['field'] in ('$BEGINDATA', '$ENDDATA') and layout['header']['data_begin'] and layout['header']['data_end']:
             return '%s corrupted %s -> %s while the HEADER holds the valid DATA offsets: loaded a different matrix %s %s (intact %s)' % (
                 case['field'], old, new, impl['shape'], str(impl['data'])[:60], intact['shape'])
-        if imp is not None and imp[0] in (imp[1], imp[1] - 1):
+        size_field = case['field'] in ('$TOT', '$PAR', 'hdr:data_begin', 'hdr:data_end', '$BEGINDATA', '$ENDDATA') or (case['field'].startswith('$P') and case['field'].endswith('B'))
+        if size_field and imp is not None and imp[0] in (imp[1], imp[1] - 1):
+            # (only corruptions of the fields that declare the size or the place of DATA can be ambiguous in this way)
             self.exclude('tolerated-ambiguous corruption (implied size == extent or extent-1)')
             return None
         return '%s corrupted %s -> %s: loaded a different matrix %s instead of failing (intact %s)' % (
